@@ -252,9 +252,58 @@ def _docs(tier):
 GRID_SLOTS = [1, 2, 3, 4, 5, 6, 7, 8, 9, 12, 16, 24, 32, 48, 64, 96, 192]
 
 
+LARGE = dict(quick=[(40, 300), (300, 2500)], thorough=[(40, 300), (300, 2500), (999, 8000)])
+
+
+def check_large(measures, n, ctx):
+    """size: n notes over `measures` measures (8 per measure and channel at most), a tempo event every 3rd measure at an odd
+    position, long notes across measures; the three difficulties have n, n/3 and 5 notes."""
+    doc = default_doc()
+    evs = [[], [], []]
+    for d, cnt in enumerate((n, n // 3, 5)):
+        per = max(1, -(-cnt // measures))
+        step = F(1, 8 if per <= 8 else 32)
+        i = 0
+        for m in range(measures):
+            for k in range(per):
+                if i >= cnt:
+                    break
+                ch = 2 + (i % 7)
+                pos = step * ((k * 3 + ch) % int(1 / step))
+                if i % 11 == 5 and m + 1 < measures:
+                    evs[d] += [(m, pos, ch, "n2", None), (m + 1, pos, ch, "n3", None)]
+                else:
+                    evs[d].append((m, pos, ch, "n0", None))
+                i += 1
+        for m in range(0, measures, 3):
+            evs[d].append((m, F(3, 8), 1, "b", 90.0 + (m * 13) % 120))
+    # one channel cannot hold two events at one position, nor a note inside its own long note: keep the first of each clash
+    for d in range(3):
+        seen, out, busy = set(), [], {}
+        for e in sorted(evs[d], key=lambda e: (e[0], e[1], e[2])):
+            key = (e[0], e[1], e[2])
+            until = busy.get(e[2])
+            if key in seen or (until is not None and (e[0], e[1]) <= until and e[3] != "n3"):
+                continue
+            seen.add(key)
+            if e[3] == "n2":
+                busy[e[2]] = (e[0] + 1, e[1])
+            if e[3] == "n3":
+                busy.pop(e[2], None)
+            out.append(e)
+        # a head whose tail was dropped (or the reverse) would be ill-formed: drop unmatched heads/tails
+        heads = {(e[0] + 1, e[1], e[2]) for e in out if e[3] == "n2"}
+        tails = {(e[0], e[1], e[2]) for e in out if e[3] == "n3"}
+        out = [e for e in out if not (e[3] == "n2" and (e[0] + 1, e[1], e[2]) not in tails) and not (e[3] == "n3" and (e[0], e[1], e[2]) not in heads)]
+        evs[d] = out
+    doc["ev"] = evs
+    finalize(doc)
+    run_doc(doc, dict(devs=[f"large={measures}/{n}"], elems=[]), dict(large=[measures, n]), ctx, ("ojn-large", measures, n))
+
+
 def roots(tier, seed):
     n = len(_docs(tier))
-    return [dict(start=s, stop=min(n, s + CHUNK)) for s in range(0, n, CHUNK)] + [dict(grid=k) for k in GRID_SLOTS]
+    return [dict(large=list(a)) for a in LARGE[tier]] + [dict(start=s, stop=min(n, s + CHUNK)) for s in range(0, n, CHUNK)] + [dict(grid=k) for k in GRID_SLOTS]
 
 
 def check_grid(n, ctx):
@@ -266,6 +315,9 @@ def check_grid(n, ctx):
 
 
 def explore(root, tier, ctx):
+    if "large" in root:
+        check_large(*root["large"], ctx)
+        return
     if "grid" in root:
         check_grid(root["grid"], ctx)
         return
@@ -278,6 +330,8 @@ def explore(root, tier, ctx):
 def replay(case, ctx):
     if "grid" in case:
         check_grid(case["grid"], ctx)
+    elif "large" in case:
+        check_large(*case["large"], ctx)
     else:
         check(tuple(tuple(x) for x in case["devs"]), tuple(case["seq"]), ctx)
 
